@@ -137,7 +137,7 @@ def main(chk):
     if chk.thorough:
         tasks += [(prog, (0, 1, 1, 0), (0, 1, 1)), (prog, (2, 2, 0), (2,))]
     chk.parallel(o1_rollup, tasks)
-    hobl.handle_obligations(chk, prog, {'C18'}, ['simple', 'session', 'extended', 'named', 'malformed', 'cuts', 'status', 'copy', 'two-clients', 'timeouts', 'shutdown', 'drops'])
+    hobl.handle_obligations(chk, prog, {'C18'}, ['simple', 'session', 'extended', 'named', 'malformed', 'cuts', 'status', 'copy', 'two-clients', 'timeouts', 'shutdown', 'drops', 'checkout-failures'])
 
 
 if __name__ == '__main__':
